@@ -511,6 +511,9 @@ namespace Pistache
                 virtual StepId id() const                 = 0;
                 virtual State apply(StreamCursor& cursor) = 0;
 
+                // forget the progress made on the current message
+                virtual void reset() { }
+
                 static void raise(const char* msg, Code code = Code::Bad_Request);
 
             protected:
@@ -569,6 +572,12 @@ namespace Pistache
 
                 StepId id() const override { return Id; }
                 State apply(StreamCursor& cursor) override;
+
+                void reset() override
+                {
+                    chunk.reset();
+                    bytesRead = 0;
+                }
 
             private:
                 struct Chunk
